@@ -267,6 +267,52 @@ func (r *Run) Finish(t *testing.T) {
 	}
 }
 
+// EnvInt reads an integer environment variable (0 if unset).
+func EnvInt(name string) int {
+	n, _ := strconv.Atoi(os.Getenv(name))
+	return n
+}
+
+// Merge folds another run's counters (prefixed), samples and violations into r.
+func (r *Run) Merge(o *Run, prefix string) {
+	o.mu.Lock()
+	defer o.mu.Unlock()
+	r.mu.Lock()
+	defer r.mu.Unlock()
+	for k, v := range o.Cov {
+		switch k {
+		case "states", "transitions", "traces_validated_against_impl", "evaluations":
+			a, _ := r.Cov[k].(int64)
+			b, _ := v.(int64)
+			r.Cov[k] = a + b
+			r.Cov[prefix+k] = v
+		case "exhaustive":
+			a, ok := r.Cov[k].(bool)
+			b, _ := v.(bool)
+			r.Cov[k] = (a || !ok) && b
+			r.Cov[prefix+k] = v
+		case "rule", "explanation", "distinct_nontrivial":
+			r.Cov[prefix+k] = v
+		default:
+			r.Cov[prefix+k] = v
+		}
+	}
+	for k := range o.distinct {
+		r.distinct[prefix+k] = struct{}{}
+	}
+	r.samples = append(r.samples, o.samples...)
+	for _, sig := range o.vorder {
+		if _, ok := r.violations[sig]; !ok {
+			r.violations[sig] = o.violations[sig]
+			r.vorder = append(r.vorder, sig)
+		}
+	}
+	for k := range o.knownHit {
+		r.knownHit[k] = true
+	}
+	r.Assumptions = append(r.Assumptions, o.Assumptions...)
+}
+
 // Short trims long strings for samples.
 func Short(s string, n int) string {
 	if len(s) <= n {
